@@ -182,7 +182,7 @@ CASES += [
          old="         if ((list_owner != nullptr)\n             && (stored_group.mpArgHandler.get() != list_owner))\n            continue;   // for\n", new=""),
     dict(id='c08-orig-value-lists-stay-open', prop='C08', file=G, expect='R5',
          old="            stored_group.mpArgHandler->endValueList();\n         } // end for\n      }\n      ArgHandlerCont&  mGroups;", new="         } // end for\n      }\n      ArgHandlerCont&  mGroups;"),
-    dict(id='c08-eq-value-lists-closed-by-loop-at-end', prop='C08', file=G, expect=None,
+    dict(id='c08-eq-value-lists-also-closed-by-loop-at-end', prop='C08', file=G, expect=None,
          old="   if (!mContinueAfterUsage || !usage_printed)\n   {\n      for (auto const& stored_group : mArgGroups)\n      {\n         stored_group.mpArgHandler->checkMissingMandatoryCardinality();",
          new="   for (auto & stored_group : mArgGroups)\n   {\n      stored_group.mpArgHandler->endValueList();\n   } // end for\n\n   if (!mContinueAfterUsage || !usage_printed)\n   {\n      for (auto const& stored_group : mArgGroups)\n      {\n         stored_group.mpArgHandler->checkMissingMandatoryCardinality();"),
     dict(id='c08-owner-first-abbreviation', prop='C08', file=G, expect='R5',
